@@ -157,7 +157,7 @@ impl Property for C05 {
         vec![
             "E1 switches only at join boundaries; leaf jobs of sibling subtrees never overlap and nothing is preempted inside a leaf (covered by the E2 Miri cross-check in the thorough tier)".into(),
             "all nondeterminism reaches the library through rayon-core, Tensor::random's clock read and the HashMap hasher; a new direct use of std::thread / SystemTime / std HashMap would bypass the seams (the exact-repetition execution would still flag run-to-run differences)".into(),
-            "networks are small (<= 5 layers, <= 200 elements per activation, batches <= 48), except for the scale stratum (about one case in seventy: up to 530 samples, groups of 256 and more, layers up to 130 wide, a few up to 2100)".into(),
+            "networks are small (<= 5 layers, <= 200 elements per activation, batches <= 48), except for the scale stratum (about one case in seventy: up to 530 samples, groups of 256 and more, layers up to 130 wide, a few up to 16500)".into(),
         ]
     }
 
